@@ -279,6 +279,32 @@ def child_main(chan, cache_dir, installed_dir, task, chunks=CHUNKS, lock_timeout
             a.join(10)
             out["result"] = "ok"
             out["t1"], out["t2"] = seen.get("t1", "stuck"), seen.get("t2", "stuck")
+        elif kind == "refresh_twice":
+            # ONE process refreshes, lets time pass (its clock is advanced by task[1] seconds) while ANOTHER process refreshes
+            # (the parent rewrites the timestamp file at the scheduling point), and refreshes again
+            free[0] = True
+
+            def attempt():        # (the source is unreachable in the harness: an attempt that reaches for it ends with URLError)
+                try:
+                    return hed_cache.cache_xml_versions(cache_folder=cache_dir)
+                except urllib.error.URLError:
+                    return "unreachable"
+            r1 = attempt()
+            n1 = net[0]
+            free[0] = False
+            point("between")
+            free[0] = True
+            real_time, real_sleep = time.time, time.sleep
+
+            class _Clock:
+                time = staticmethod(lambda: real_time() + float(task[1]))
+                sleep = staticmethod(real_sleep)
+            hed_cache_lock.time = _Clock
+            r2 = attempt()
+            out["result"] = "ok"
+            out["first"] = "skipped" if r1 == -1 else "ran"
+            out["second"] = "skipped" if r2 == -1 else "ran"
+            out["net_first"], out["net_second"] = n1, net[0] - n1
         elif kind == "refresh":
             r = hed_cache.cache_xml_versions(cache_folder=cache_dir)
             out["result"] = "skipped" if r == -1 else "ran"
